@@ -293,6 +293,48 @@ def walk_fails_late(ctx, base):
             return
 
 
+def linked_and_readonly_sources(ctx, base):
+    """two source shapes whose copies must not depend on who comes first: (1) files with SEVERAL NAMES (hard links) — each name is
+    copied, whichever worker gets there first; (2) as an unprivileged user, a source directory without write permission —
+    the destination directory must stay writable for as long as workers still create files in it.  Runs with one worker, with
+    several workers and stalled opens, with both drivers: all exit 0 with one and the same destination."""
+    import subprocess
+    for shape in ('hard-links', 'read-only-directory'):
+        ref = None
+        for j, (driver, workers, plan) in enumerate((('parfile', 1, None), ('parfile', 4, ['stallp openat =S/a 80000', 'stallp openat =S/b 80000', 'stallp openat =S/ro/f1 80000']),
+                                                     ('parfile', 4, ['stall openat 20000']), ('parblock', 2, ['stall copy_file_range 30000']), ('parfile', 8, None))):
+            u = base + '/lr'
+            subprocess.run(f'chmod -R u+rwx {u} 2>/dev/null; rm -rf {u}', shell=True); os.makedirs(u + '/S/sub'); os.makedirs(u + '/S/ro')
+            for nm, txt in (('a', b'A' * 3000), ('e', b'E' * 10), ('sub/c', b'C' * 70000)):
+                open(f'{u}/S/{nm}', 'wb').write(txt)
+            for k in range(6):
+                open(f'{u}/S/ro/f{k}', 'wb').write(b'%d' % k * 500)
+            ids = None
+            if shape == 'hard-links':
+                os.link(u + '/S/a', u + '/S/b'); os.link(u + '/S/sub/c', u + '/S/sub/d'); os.link(u + '/S/a', u + '/S/sub/a2')
+            else:
+                os.chmod(u + '/S/ro', 0o555)
+                subprocess.run(f'chown -R 61234:61234 {u}', shell=True); ids = (61234, 61234, [])
+            argv = ['-r', '--driver', driver, '--workers', str(workers), 'S', 'D']
+            r = scen.run_xcp(u, argv, plan=plan, ids=ids, timeout=60)
+            names = sorted(os.path.relpath(os.path.join(dp, f), u + '/D') for dp, ds, fs in os.walk(u + '/D') for f in fs + ds) if os.path.isdir(u + '/D') else []
+            bad = [n for n in names if os.path.isfile(f'{u}/D/{n}') and open(f'{u}/D/{n}', 'rb').read() != open(f'{u}/S/{n}', 'rb').read()]
+            cur = (r.cls, tuple(names), tuple(bad))
+            ctx.count(f'source_shape.{shape}.{r.cls}'); ctx.case(('source-shape', shape, driver, workers, tuple(plan or ())), True)
+            if ref is None:
+                ref = cur
+                src_names = sorted(os.path.relpath(os.path.join(dp, f), u + '/S') for dp, ds, fs in os.walk(u + '/S') for f in fs + ds)
+                if cur[0] != '0' or list(cur[1]) != src_names or bad:
+                    ctx.violation(f'source-shape-{shape}-ref.json', dict(argv=argv, exit=r.cls, stderr=r.stderr[-300:], destination=names, source=src_names, differing=bad),
+                                  f'C06: reference run (one worker) over a source with {shape}: exit {r.cls}, destination {"differs from" if list(cur[1]) != src_names or bad else "equals"} the source', no_input=cur[0] != '0' and False)
+                    break
+            elif cur != ref:
+                ctx.violation(f'source-shape-{shape}-{j}.json', dict(argv=argv, plan=plan, exit=r.cls, stderr=r.stderr[-300:], entries=len(names), reference_exit=ref[0], reference_entries=len(ref[1])),
+                              f'C06: a source with {shape}: ({driver}, {workers} workers, {plan}) ends with exit {r.cls} and {len(names)} entries, one worker with exit {ref[0]} and {len(ref[1])}')
+                break
+        subprocess.run(f'chmod -R u+rwx {base}/lr 2>/dev/null; rm -rf {base}/lr', shell=True)
+
+
 def run(ctx):
     ctx.proofs()
     core.build_repo(); core.build_sup()
@@ -308,6 +350,7 @@ def run(ctx):
         walk_fails_late(ctx, base)
         block_order_corpus(ctx, base)
         driver_and_pace_agreement(ctx, base)
+        linked_and_readonly_sources(ctx, base)
         for i in range(n):
             sc = gen(rng)
             configs = [(d, w) for d in ('parfile', 'parblock') for w in (1, 2, 3, 8, 64)]
